@@ -444,7 +444,7 @@ pub fn run_case(p: &Program, cfg: &Config, opts: &CaseOpts, rng: &mut Rng) -> Ca
                     FailClass::Race => justify_race(p, &h, &may),
                     FailClass::Leak(kind) => {
                         let k = kind.clone();
-                        replay_may_any(p, &h, &may, false, move |a| a.leak.as_deref() == Some(k.as_str()) || (a.leak.is_some()))
+                        replay_may_any(p, &h, &may, false, move |a| a.leaks.iter().any(|x| x == &k))
                     }
                     _ => Ok(true),
                 };
